@@ -653,6 +653,9 @@ var c09scale = newChk("C09", "family-scaling",
 				break
 			}
 			b := f.Make(n, c.Variant)
+			if n != c09Ladder[0] {
+				rec.Eval() // every size of the ladder is one evaluation (the first one is counted by the driver of the case)
+			}
 			m := c09MeasureW(f.V6, b, f.Window)
 			rec.Class(fmt.Sprintf("%s n=%d accepted=%v", f.Name, n, m.Accepted))
 			rec.Extra(fmt.Sprintf("cost %s/v%d n=%d", f.Name, c.Variant, n), fmt.Sprintf("A/n/(d+1)=%.1f S/n=%.1f d=%d accepted=%v", float64(m.A)/float64(m.N)/float64(m.D+1), float64(m.S)/float64(m.N), m.D, m.Accepted))
